@@ -24,8 +24,9 @@
 (*                                    Finish (ongoing:=None, initialized,  *)
 (*                                       notify_waiters under sync)        *)
 (*                                    Refetch, IdleCheck, StopExit (select)*)
-(*                                    ExitRemove (stop_managing_paths BY   *)
-(*                                       KEY), ExitNotify, ExitClear       *)
+(*                                    ExitUpgrade, ExitRemove              *)
+(*                                       (stop_managing_paths BY KEY),     *)
+(*                                       ExitNotify, ExitClear             *)
 (*   user                             Stop (stop_managing_paths), Drop     *)
 (*   scc::HashIndex                   Reclaim: a removed entry is dropped  *)
 (*                                       (PathSetTask::drop => cancel)     *)
@@ -38,7 +39,8 @@
 (*                                                                         *)
 (* The manager object (Arc<MultiPathManagerInner>) lives while the user    *)
 (* holds it, while an API call borrows it, and while a worker holds the    *)
-(* upgraded reference during a fetch: `Alive`.  Workers only hold a Weak.  *)
+(* upgraded reference during a fetch or its exit-path removal: `Alive`.    *)
+(* Otherwise workers only hold a Weak.                                     *)
 (* When it dies the map entries are dropped (cancel) and the issue channel *)
 (* closes, which a sleeping worker observes: StopExit.                     *)
 (*                                                                         *)
@@ -88,7 +90,7 @@ mvars == <<managed, limbo, removed, cancelled, userHeld>>
 running == <<runC, runW>>
 vars  == <<mvars, wvars, cvars, running>>
 
-WPC == {"unborn", "spawned", "fetching", "finishing", "sleeping", "exiting", "exitnotify", "clearing", "dead"}
+WPC == {"unborn", "spawned", "fetching", "finishing", "sleeping", "exiting", "removing", "exitnotify", "clearing", "dead"}
 CPC == {"idle", "contains", "ensure", "insert", "have", "check", "late", "waiting", "final", "done"}
 
 TypeOK ==
@@ -132,7 +134,7 @@ InFlight(c) == cpc[c] \notin {"idle", "done"}
 \* strong references to the manager
 Alive == \/ userHeld
          \/ \E c \in Callers : Api(c) /\ (InFlight(c) \/ c \in linger)
-         \/ \E w \in Workers : wpc[w] \in {"fetching", "finishing"}
+         \/ \E w \in Workers : wpc[w] \in {"fetching", "finishing", "removing"}
 Live(w) == wpc[w] \notin {"unborn", "dead"}
 Unborn == {w \in Workers : wpc[w] = "unborn"}
 NextWorker == CHOOSE w \in Unborn : \A v \in Unborn : w <= v
@@ -203,11 +205,19 @@ StopExit(w) ==
   /\ UNCHANGED <<wkey, init, ongoing, err, active, used, fetches, mvars, cvars>>
   /\ WSched(w)
 
-\* exit path 1: if the manager still exists: stop_managing_paths(src,dst) -- BY KEY
-ExitRemove(w) ==
+\* exit path 1a: `if let Some(mgr) = self.manager.upgrade()`
+ExitUpgrade(w) ==
   /\ wpc[w] = "exiting"
+  /\ wpc' = [wpc EXCEPT ![w] = IF Alive THEN "removing" ELSE "exitnotify"]
+  /\ UNCHANGED <<wkey, init, ongoing, err, active, used, fetches, mvars, cvars>>
+  /\ WSched(w)
+
+\* exit path 1b: mgr.stop_managing_paths(src,dst) -- BY KEY (the worker holds the upgraded
+\* reference meanwhile)
+ExitRemove(w) ==
+  /\ wpc[w] = "removing"
   /\ wpc' = [wpc EXCEPT ![w] = "exitnotify"]
-  /\ IF Alive THEN RemoveKey(wkey[w]) ELSE UNCHANGED <<managed, limbo, removed>>
+  /\ RemoveKey(wkey[w])
   /\ UNCHANGED <<cancelled, userHeld, wkey, init, ongoing, err, active, used, fetches, cvars>>
   /\ WSched(w)
 
@@ -329,7 +339,7 @@ Final(c) ==
   /\ CSched(c)
 
 -----------------------------------------------------------------------------
-WInternal(w) == FirstPoll(w) \/ Finish(w) \/ StopExit(w) \/ ExitRemove(w) \/ ExitNotify(w) \/ ExitClear(w)
+WInternal(w) == FirstPoll(w) \/ Finish(w) \/ StopExit(w) \/ ExitUpgrade(w) \/ ExitRemove(w) \/ ExitNotify(w) \/ ExitClear(w)
 CInternal(c) == Contains(c) \/ Ensure(c) \/ InsertLate(c) \/ ActiveLoad(c) \/ CheckReg(c)
                 \/ RegisterLate(c) \/ Wake(c) \/ Final(c)
 Internal == (\E w \in Workers : WInternal(w)) \/ (\E c \in Callers : CInternal(c))
@@ -450,7 +460,8 @@ Next == Internal \/ External
 
 Fairness ==
   /\ \A w \in Workers : /\ WF_vars(FirstPoll(w)) /\ WF_vars(Finish(w)) /\ WF_vars(StopExit(w))
-                        /\ WF_vars(ExitRemove(w)) /\ WF_vars(ExitNotify(w)) /\ WF_vars(ExitClear(w))
+                        /\ WF_vars(ExitUpgrade(w)) /\ WF_vars(ExitRemove(w))
+                        /\ WF_vars(ExitNotify(w)) /\ WF_vars(ExitClear(w))
                         /\ WF_vars(\E o \in Outcomes : FetchReturn(w, o))   \* lookups complete
   /\ \A c \in Callers : WF_vars(CInternal(c))
 
